@@ -27,7 +27,7 @@ class C15(Check):
     TRACE_FILES = ('secnode.py', 'modulebase.py')
     TIERS = {'quick': {'runs': 15000, 'wall': 70}, 'thorough': {'runs': 300000, 'wall': 800}}
     MAX_VIRTUAL = 400
-    RULE = ('[30 % of the cases shut down in the middle of a read of 0.1..0.7 s] ' 'case = 2..5 modules + attachment edges (acyclic; with probability cyclic / missing target / wrong base '
+    RULE = ('[a third of the configured writes use the default value of the parameter; restart generation; attachments named io] ' '[30 % of the cases shut down in the middle of a read of 0.1..0.7 s] ' 'case = 2..5 modules + attachment edges (acyclic; with probability cyclic / missing target / wrong base '
             'class / optional and empty), first-access phase per edge in {earlyInit, initModule, startModule, poll, '
             'shutdown, never}, shuffled declaration order, optional Pinata with dynamic modules, optional shared '
             'communicator via uri, configured writes, failing earlyInit/initModule, slow (<= 3 s) or hanging (40 s) '
